@@ -316,7 +316,7 @@ Proof.
 Qed.
 
 (* the full-strength statement of C18 over the universe, and its refutation by F36 *)
-Definition json_arch : arch := mkArch true NullStrMismatch 1.
+Definition json_arch : arch := mkArch false NullStrSkip 1.   (* since fix a88d81b / cde2a3b: null is 'not loaded' *)
 Definition msgpack_arch : arch := mkArch false NullStrSkip 1.
 Definition csv_arch : arch := mkArch true NullStrEmpty 0.
 Definition default_pols : pols := mkPols PThrow PThrow.
